@@ -15,6 +15,41 @@ CHECKS = {
         "Trusts the 25-line reference scan and the plain-data conversion; domain 1<=a<=b on non-empty scaffolds.",
         "3-C12",
     ),
+    "C01": (
+        "exploration",
+        "conservation oracle (interval partition of every input contig over all output assemblies pooled) on every completed remap of seeded PretextView-model, hostile, designed-tag and two-haplotype maps; CLI slice re-parses the written TPF/AGP files with independent parsers",
+        "Every completed run of the workloads (in-memory and through the CLI's written files) is checked for lost, duplicated or invented bases; runs that end in an error are counted by exception type and raising function.",
+        "Valid input assemblies (disjoint contig intervals, unique scaffold names); any exception counts as 'ends in an error'.",
+        "3-C01",
+    ),
+    "C02": (
+        "exploration",
+        "unambiguous-history oracle: base-level placement map of the outputs; affine placement, orientation, internal gaps and Pretext order of every piece core; exact cut coordinate; exceptions on PretextView-model maps are violations",
+        "For each generated PretextView-model edit script the output position of core bases (all contig-interval ends and midpoints inside the core; every base in the dense shards) is compared with y = y0 + sigma (x - x0); cuts deeper than the margin must appear at the designated contig coordinate.",
+        "PretextView model as stated in the property; margin 3*(1+floor t); sampling of core bases except in dense shards.",
+        "3-C02",
+    ),
+    "C07": (
+        "exploration",
+        "adjacency-history oracle: unordered pairs of facing contig ends (name, coordinate, lo|hi) with the gap rows between them, input vs every output scaffold",
+        "Every junction of every output scaffold of the completed runs is classified (gapless / input gap kept / join gap) and checked against the input adjacency map; sentence 1 on all maps incl. hostile, sentence 2 on PretextView-model and designed-tag maps.",
+        "Halves of a cut contig meeting again count as input neighbours; with several consecutive input gap rows each output row must be one of them.",
+        "3-C07",
+    ),
+    "C08": (
+        "exploration",
+        "null-map workload (whole, uncut, unpainted or all-painted scaffolds at every texel size with Pretext's end rounding, sub-texel scaffolds present/absent) with identity + zero-statistics oracle",
+        "Each generated null map must give exactly one (primary) assembly with the input scaffolds by name and row-for-row, zero cuts/breaks/joins; painted variant: same row lists, names prefix+rank by non-increasing sequence length.",
+        "Last-contig precondition applied as > ceil(t)+1 bp; order compared by name.",
+        "3-C08",
+    ),
+    "C11": (
+        "exploration",
+        "independent junction counter over contig ends vs AssemblyStats; metamorphic recomputation of the real statistics with whole scaffolds reversed; CLI slice: log line and info.yaml vs counts recomputed from the written files",
+        "On every completed run reported cuts/breaks/joins are compared with an independent count; the real make_stats is re-run with random whole scaffolds of input and/or output reversed and must not change; the CLI's log line, yaml totals and haplotig-removal count are compared with the files it wrote.",
+        "Strands +1/-1 only.",
+        "3-C11",
+    ),
     "C03": (
         "exploration",
         "post-condition on the real FastaStream.write_scaffold (tee captures the bytes of each call) vs an in-memory FASTA model; G-fasta x G-sub x buffer x line-length workload; CLI slice comparing each written .fa/.agp pair with the input FASTA",
